@@ -101,6 +101,9 @@ class UnusedTranslator:
             ):
                 for elem in stm.head.elements:
                     self._add_usage_stm(elem.literal)
+            if stm.ast_type in (ASTType.External, ASTType.Heuristic, ASTType.ProjectAtom):
+                # the atom of these statements is visible from outside, keep all of its positions
+                self._add_usage_stm(stm.atom)
             if stm.ast_type in (ASTType.ShowSignature, ASTType.ProjectSignature):
                 pred = Predicate(stm.name, stm.arity)
                 self.used.add(pred)
